@@ -547,6 +547,7 @@ def run_soup(ctx):
             inp_ = list(inp) if isinstance(inp, list) else inp
             expect = 'cat' if case.get('needs_expect') else None
             ctx.seed_case('soup', i, step)
+            lib.reset_scripted(g)
             out = lib.call(ctx, g, expect, inp_)
             try:
                 twin = case['make'](debug=False)
